@@ -1103,6 +1103,24 @@ def hash_rules(run, r_accept, r_same, r_publish, r_checked, r_allids, ast):
         ps = astq.enum_paths(f["body"], lambda c: None, lambda n: (n.get("k") in ("CallExpr", "CXXOperatorCallExpr") and (n.get("callee") == "abort" or any(
             (astq.refname(y) or "").endswith("::error") for y in astq.walk(n)))) or (n.get("k") == "DeclStmt" and any("hash_search_error" in d["type"] for d in n["decls"])))
         okx = bool(ps) and all(p.get("noreturn") and any(n.get("k") == "DeclStmt" for k0, n in p["events"]) for p in ps if p["returned"] is None)
+        # ... and what it reports: `buckets` is the largest table TRIED. The pass loop advances the bit count once more before it is
+        # left, so after the loop the last size is 1 << (M - 1)
+        for n in astq.walk(f["body"]):
+            if n.get("k") == "BinaryOperator" and n.get("op") == "=" and (astq.strip(n["c"][0]) or {}).get("k") == "MemberExpr" and astq.strip(n["c"][0]).get("member") == "buckets":
+                sh = [x for x in astq.walk(n["c"][1]) if x.get("k") == "BinaryOperator" and x.get("op") == "<<"]
+                if not sh:
+                    run.broken.append("%s: value of hash_search_error::buckets is not a shift" % short(f))
+                    continue
+                e = astq.affine(sh[0]["c"][1], {})
+                loops = [lp for lp in astq.walk(f["body"]) if lp.get("k") == "ForStmt" and lp["l"] < n["l"] and lp.get("inc") is not None and any(
+                    y.get("k") == "UnaryOperator" and y.get("op") == "++" and ("v:%s" % ((astq.strip(y["c"][0]) or {}).get("ref", {}).get("name", "?").split("::")[-1])) in (e or {}) for y in astq.walk(lp["inc"]))]
+                if e is None or not loops:
+                    run.broken.append("%s: the exponent of hash_search_error::buckets is not the bit count the pass loop advances" % short(f))
+                    continue
+                okb = e.get(1, 0) == -1
+                run.instance(r_accept, "%s: hash_search_error::buckets is the largest table tried (1 << (M - 1) after the pass loop)" % short(f), (f["file"], n["l"]), ok=okb)
+                if not okb:
+                    run.violation(r_accept, "fast_perfect_hash::hash_initialize|reported-buckets", "after the pass loop has advanced the bit count once more, the error reports `%s` buckets: twice the largest table that was tried" % astq.text(n["c"][1])[:40], (f["file"], n["l"]))
         run.instance(r_accept, "%s: an exhausted search reports hash_search_error and aborts (never installs parameters)" % short(f), (f["file"], f["line"]), ok=okx)
         if not okx:
             run.violation(r_accept, "fast_perfect_hash::hash_initialize|exhaustion", "a path leaves the search loop without reporting hash_search_error and aborting", (f["file"], f["line"]))
